@@ -20,6 +20,7 @@ type SchedReader struct {
 	pos, ci     int
 	Reads       int
 	zeroRun     int
+	ended       bool
 }
 
 func (r *SchedReader) Read(p []byte) (int, error) {
@@ -29,6 +30,11 @@ func (r *SchedReader) Read(p []byte) (int, error) {
 		end = io.EOF
 	}
 	if r.pos >= len(r.Data) {
+		if !r.ended && r.ci < len(r.Chunks) && r.Chunks[r.ci] == 0 && len(p) > 0 {
+			r.ci++ // zero-length reads scheduled in front of the end
+			return 0, nil
+		}
+		r.ended = true
 		return 0, end
 	}
 	if len(p) == 0 {
@@ -41,7 +47,7 @@ func (r *SchedReader) Read(p []byte) (int, error) {
 	}
 	if n == 0 {
 		r.zeroRun++
-		if r.zeroRun <= 3 {
+		if r.zeroRun <= 1000 {
 			return 0, nil
 		}
 		n = 1
@@ -56,6 +62,7 @@ func (r *SchedReader) Read(p []byte) (int, error) {
 	copy(p, r.Data[r.pos:r.pos+n])
 	r.pos += n
 	if r.pos == len(r.Data) && r.ErrWithLast {
+		r.ended = true
 		return n, end
 	}
 	return n, nil
